@@ -1003,3 +1003,72 @@ def rule_G0(ck):
             ck.unknown(f"module {name}: {ex}")
     if n < 12 and not ck.current.findings:
         ck.unknown(f"only {n} modules folded")
+
+
+# ---------------------------------------------------------------------------------------------------------------
+# G16 - the deferral protocol passes through: no blanket handler between a value that may not be ready and its waiter
+BLANKET = ("Exception", "BaseException")
+G16_POSITIVE = '''
+def f(state, chunk):
+    try:
+        val = get_as_int(state, "x", chunk, chunk.expr, bitness=None, unsigned=True)
+    except Exception:
+        val = 0
+    return val
+'''
+
+
+def _blanket_handlers(tree):
+    """except handlers that also catch NotReadyError / RecoverableError / DeferredCycle (bare, Exception, BaseException, or a
+    tuple naming one of them), guard a body that calls something, and do not re-raise what they caught"""
+    out = []
+    for t in ast.walk(tree):
+        if not isinstance(t, ast.Try):
+            continue
+        if not any(isinstance(c, ast.Call) for s_ in t.body for c in ast.walk(s_)):
+            continue
+        for h in t.handlers:
+            names = []
+            if h.type is None:
+                names = ["<bare>"]
+            else:
+                for e in (h.type.elts if isinstance(h.type, ast.Tuple) else [h.type]):
+                    names.append(e.attr if isinstance(e, ast.Attribute) else getattr(e, "id", "?"))
+            if not (h.type is None or any(n in BLANKET for n in names)):
+                continue
+            # a handler that always ends in a bare `raise` (or `raise ex`) only observes
+            last = h.body[-1] if h.body else None
+            if isinstance(last, ast.Raise) and (last.exc is None or (isinstance(last.exc, ast.Name) and last.exc.id == h.name)):
+                continue
+            out.append((t, h, names))
+    return out
+
+
+def rule_G16(ck):
+    """Inside the package (the command line's last-resort handler apart) no `except Exception` / bare `except` may stand
+    between code that evaluates operands and its caller: NotReadyError ('not yet: ask again when everything is compiled'),
+    RecoverableError ('already reported') and DeferredCycle travel through these frames as exceptions. A blanket handler
+    turns 'not yet' into a value: the directive settles early with a made-up operand and is never evaluated again."""
+    repo = ck.repo
+    pos = _blanket_handlers(ast.parse(G16_POSITIVE))
+    if len(pos) != 1:
+        raise Unknown("G16 self-check: the matcher does not recognise the reference example")
+    n = 0
+    for q, fn in repo.all_functions():
+        mod = q.split("::")[0]
+        if isinstance(fn, ast.Lambda) or "<locals>" in q:
+            continue
+        tries = [t for t in walk_local(fn) if isinstance(t, ast.Try)]
+        for t in tries:
+            n += 1
+            ck.instance(("try", q, t.lineno), None, fn=q)
+        if mod in ("_cli",):
+            continue          # the catch-all 'unexpected internal compiler error' path is the one place a blanket handler belongs
+        for t, h, names in _blanket_handlers(fn):
+            if not any(x is t for x in walk_local(fn)):
+                continue
+            ck.violation(h, f"'except {', '.join(names)}' around {norm_text(t.body[0])[:70]!r} also catches NotReadyError, RecoverableError and DeferredCycle: an operand that is merely not known YET "
+                            "(a symbol defined further down) is replaced by the handler's substitute, the directive settles with it and is never evaluated again - "
+                            "and a failure that was never reported is swallowed silently", construct=f"blanket exception handler in {public_qual(q).split('::')[1]}")
+    if n < 8:
+        ck.unknown(f"only {n} try statements found in the package (12 confirmed by hand)")
